@@ -288,5 +288,10 @@ func runC01() {
 	n = scaled(n)
 	for i := 0; i < n; i++ {
 		c01Scenario(rnd.Fork())
+		// locking reads across fair-locking retries whose earlier locks expired (family of c06.go; the locking-read
+		// oracle and `audit held` are C01's: a locking read returns the newest committed value and really holds the lock)
+		if i%12 == 5 {
+			aggExpireScenario(rnd.Fork())
+		}
 	}
 }
